@@ -19,7 +19,7 @@ type FuncResult struct {
 	VC          *VC
 	OutOfSubset string // non-empty: reason; the function is not counted as proved
 	StubsUsed   []string
-	Abstracted  []string // calls over-approximated (pragma unknowncalls havoc)
+	Abstracted  []string       // calls over-approximated (pragma unknowncalls havoc)
 	AssumedObls map[string]int // pragma obligations contract: automatic obligations assumed, by kind
 	Inlined     []string
 	Callees     []string
@@ -128,6 +128,14 @@ func VerifyFunc(ld *Loader, specs *Specs, fk string, safetyOnly bool) (res *Func
 			}
 			// anchors must have matched
 			for _, at := range fc.Ats {
+				if at.Optional {
+					for _, a := range at.Actions {
+						if a.Kind != "assume" {
+							res.OutOfSubset = fmt.Sprintf("anchor %q is optional (x*) but does more than assume", at.Anchor)
+						}
+					}
+					continue
+				}
 				if at.hits == 0 {
 					res.OutOfSubset = fmt.Sprintf("anchor %q matched no instruction", at.Anchor)
 				}
